@@ -54,12 +54,19 @@ func startPipeline(t *testing.T) *pipeline {
 		case 3:
 			p.accepted, p.strict, p.poll = []string{"passing", "warning"}, true, 15*time.Millisecond
 		}
+		// the accepted states reach fabio the way an operator writes them (here: with a blank item
+		// and blanks around the names, which a list option ignores)
+		written := map[int]string{0: "passing", 1: "passing,,warning", 2: " passing ", 3: "passing , ,warning,"}[hx.Shard()%4]
+		loaded, lerr := config.Load([]string{"fabio", "-registry.consul.service.status=" + written}, nil)
+		if lerr != nil || loaded == nil {
+			t.Fatalf("registry.consul.service.status=%q rejected: %v", written, lerr)
+		}
 		cfg := &config.Config{}
 		cfg.Registry.Backend = "consul"
 		cfg.Log.RoutesFormat = "delta"
 		cfg.Registry.Consul = config.Consul{
 			Addr: p.fc.Addr(), Scheme: "http", KVPath: kvPath, NoRouteHTMLPath: "/fabio/noroute.html", TagPrefix: "urlprefix-",
-			ServiceStatus: p.accepted, ServiceMonitors: 1 + 2*(hx.Shard()%2), PollInterval: p.poll,
+			ServiceStatus: loaded.Registry.Consul.ServiceStatus, ServiceMonitors: 1 + 2*(hx.Shard()%2), PollInterval: p.poll,
 		}
 		if hx.Shard()%2 == 1 {
 			// fabio can register the aliases that routes ask for (register=<name>) with the agent
